@@ -4,7 +4,7 @@ import Hifi.Model.Views
 import Hifi.Gen.UnicodeRanges
 /-
   Executable model of the epoch text code (C10, C13), transcribed from the CURRENT sources
-  (which contain the repairs 815794b, 8359eac, bc27c0b, 3686660, b159cb8):
+  (which contain the repairs 815794b, 8359eac, bc27c0b, 3686660, b159cb8, e8a14ed, 582282e, bfd663d):
     src/epoch/gregorian.rs   Epoch::from_gregorian_str (tokenizer loop), to_gregorian_str
     src/parser.rs            Token::advance_with, Token::value_ok, Token::gregorian_position
     src/epoch/mod.rs         impl FromStr for Epoch (JD / MJD / SEC prefixes, 3-byte scale suffix),
@@ -393,14 +393,31 @@ def tzOf (st : GSt) : Res Dur :=
   if st.sign > 0 then Dur.neg (Dur.add (Dur.unitMulI64 Cal.NPH st.oh) (Dur.unitMulI64 Cal.NPMIN st.om))
   else .ok (Dur.add (Dur.unitMulI64 Cal.NPH st.oh) (Dur.unitMulI64 Cal.NPMIN st.om))
 
-/-- everything after the loop: the `try_into().unwrap()`s, `maybe_from_gregorian`, `epoch + tz` -/
+/-- the check made when the text had second = 60 (fix 582282e): the epoch, once the offset is removed,
+    must show 23:59:59 of a day on which `is_gregorian_valid` allows a 60th second -/
+def leapLabelOk (e : Dur) (ts : TS) : Res Bool :=
+  match Cal.computeGregorian e ts with
+  | .ok (y, m, d, hh, mm, ss, _) =>
+    if hh = 23 ∧ mm = 59 ∧ ss = 59 then Cal.isGregorianValid y m d 23 59 60 0 else .ok false
+  | .err => .panic          -- `compute_gregorian` returns a tuple, not a `Result`
+  | .panic => .panic
+
+/-- everything after the loop: `decomposed[5] = 59` when it was 60, the `try_into().unwrap()`s,
+    `maybe_from_gregorian(...)? + tz`, the leap-second label check -/
 def finishGreg (st : GSt) : Res Ep :=
   match tzOf st with
   | .ok tz =>
     if fitsU8 st.mo = true ∧ fitsU8 st.d = true ∧ fitsU8 st.h = true ∧ fitsU8 st.mi = true ∧ fitsU8 st.sec = true
         ∧ fitsU32 st.ns = true then
-      match Cal.maybeFromGregorian st.y st.mo st.d st.h st.mi st.sec st.ns st.ts with
-      | .ok d => .ok ⟨Dur.add d tz, st.ts⟩
+      match Cal.maybeFromGregorian st.y st.mo st.d st.h st.mi (if st.sec = 60 then 59 else st.sec) st.ns st.ts with
+      | .ok d =>
+        if st.sec = 60 then
+          match leapLabelOk (Dur.add d tz) st.ts with
+          | .ok true => .ok ⟨Dur.add d tz, st.ts⟩
+          | .ok false => .err
+          | .err => .err
+          | .panic => .panic
+        else .ok ⟨Dur.add d tz, st.ts⟩
       | .err => .err
       | .panic => .panic
     else .panic
@@ -419,44 +436,46 @@ def fromGregorianStrIdx (sIn : List Nat) : Res Ep :=
 /-! ### the numeric forms -/
 
 /-- the numeric initializers reached from `from_str`; each starts with `assert!(x.is_finite())`.
-    `dur` is the float-valued part (a duration computed with hardware doubles, see `NumF` below),
-    passed in so that this definition stays transparent. -/
+    `dur` is the float-valued part (a duration computed with hardware doubles, see `numericDurF` below),
+    passed in so that this definition stays transparent.  Since fix bfd663d the JD and MJD forms call
+    `from_jde_in_time_scale` / `from_mjd_in_time_scale` for whatever scale is written. -/
 def numericEpoch (fmt : Nat) (ts : TS) (bits : Nat) (dur : TS → Dur) : Res Ep :=
-  if fmt = 0 then
-    -- from_jde_et / from_jde_tdb / from_jde_tai / from_jde_utc = from_jde_in_time_scale(days, ts) (since fix
-    -- "from_jde_et and from_jde_tdb count the Julian date in ET and TDB themselves")
-    (if ts = .ET ∨ ts = .TDB then (if finiteBits bits = false then .panic else .ok ⟨dur ts, ts⟩)
-     else if ts = .TAI ∨ ts = .UTC then (if finiteBits bits = false then .panic else .ok ⟨dur ts, ts⟩)
-     else .err)
-  else if fmt = 1 then
-    (if ts = .TAI ∨ ts = .UTC ∨ ts = .GPST ∨ ts = .BDT ∨ ts = .GST then
-       (if finiteBits bits = false then .panic else .ok ⟨dur ts, ts⟩)
-     else .err)
+  if fmt = 0 ∨ fmt = 1 then
+    (if finiteBits bits = false then .panic else .ok ⟨dur ts, ts⟩)
   else
     -- from_tai_seconds / from_tdb_seconds / from_tt_seconds assert; from_et_seconds and
     -- `value * Unit::Second` + from_duration do not
     (if ts = .TAI ∨ ts = .TDB ∨ ts = .TT then (if finiteBits bits = false then .panic else .ok ⟨dur ts, ts⟩)
      else .ok ⟨dur ts, ts⟩)
 
+/-- the time scale suffix (fix bfd663d): the first of the last 5, 4, 3 bytes that exists (`checked_sub`, `get`:
+    in range and on a character boundary) and that `TimeScale::from_str` accepts; with it the bytes read -/
+def suffixTs (s : List Nat) : List Nat → Option (TS × List Nat)
+  | [] => none
+  | n :: rest =>
+    if byteLen s < n then suffixTs s rest
+    else
+      match sliceOpt s (byteLen s - n) (byteLen s) with
+      | some t =>
+        (match tsFromStr t with
+         | some ts => some (ts, t)
+         | none => suffixTs s rest)
+      | none => suffixTs s rest
+
 /-- `impl FromStr for Epoch`, numeric branch: `start` = `format.len()`, `fmt` 0 JD, 1 MJD, 2 SEC -/
 def numericForm (s : List Nat) (start fmt : Nat) (dur : Nat → Nat → TS → Dur) : Res Ep :=
-  if byteLen s < 3 then .panic                                 -- `s.len() - 3`
-  else
-    match sliceOpt s (byteLen s - 3) (byteLen s) with
-    | none => .err
-    | some tsStr =>
-      match tsFromStr tsStr with
-      | none => .err
-      | some ts =>
-        if byteLen s < byteLen (trim tsStr) then .panic        -- `s.len() - ts_str.trim().len()`
-        else
-          match slice s start (byteLen s - byteLen (trim tsStr)) with
-          | .ok num =>
-            (match lexF64 (trim num) with
-             | some bits => if finiteBits bits = true then numericEpoch fmt ts bits (dur fmt bits) else .err
-             | none => .err)
-          | .err => .panic
-          | .panic => .panic
+  match suffixTs s [5, 4, 3] with
+  | none => .err
+  | some (ts, tsStr) =>
+    if byteLen s < byteLen (trim tsStr) then .panic        -- `s.len() - ts_str.trim().len()`
+    else
+      match slice s start (byteLen s - byteLen (trim tsStr)) with
+      | .ok num =>
+        (match lexF64 (trim num) with
+         | some bits => if finiteBits bits = true then numericEpoch fmt ts bits (dur fmt bits) else .err
+         | none => .err)
+      | .err => .panic
+      | .panic => .panic
 
 /-- `impl FromStr for Epoch` -/
 def epochFromStrWith (dur : Nat → Nat → TS → Dur) (sIn : List Nat) : Res Ep :=
